@@ -89,6 +89,9 @@ pub struct Sim {
     pub extra_steps: bool,
     /// monitor-only: forces pre_vote and check_quorum on, no learners, priority 0, >= 3 voters
     pub force_prevote_cq: bool,
+    /// monitor-only: every node's Storage::snapshot is the application's real snapshot (never
+    /// MemStorage::snapshot, which fabricates an index it does not have)
+    pub force_sim_snap: bool,
 }
 
 fn logger() -> slog::Logger {
@@ -123,7 +126,7 @@ pub fn call_kind(c: &Call) -> &'static str {
 
 impl Sim {
     pub fn new(seed: u64, rec: Recorder) -> Sim {
-        Sim { nodes: vec![], net: vec![], rng: Rng::new(seed), rec, next_payload: 1, max_log: 12, trace: vec![], keep_trace: false, trace_tail: 60, run_id: seed, trace_len: 0, mon: None, halted: false, quiet: false, extra_steps: false, force_prevote_cq: false }
+        Sim { nodes: vec![], net: vec![], rng: Rng::new(seed), rec, next_payload: 1, max_log: 12, trace: vec![], keep_trace: false, trace_tail: 60, run_id: seed, trace_len: 0, mon: None, halted: false, quiet: false, extra_steps: false, force_prevote_cq: false, force_sim_snap: false }
     }
 
     /// Random cluster shape and per-node configuration.
@@ -138,7 +141,7 @@ impl Sim {
         let check_quorum = rng.chance(1, 2);
         let batch = rng.chance(1, 4);
         let lease = check_quorum && rng.chance(1, 4);
-        let sim_snap = !rng.chance(1, 8);
+        let sim_snap = !rng.chance(1, 8) || self.force_sim_snap;
         let force = self.force_prevote_cq;
         let (voters, learners, pre_vote, check_quorum, lease) = if force {
             let nv = if nv < 3 { 3 } else { nv };
